@@ -623,7 +623,7 @@ class Interp:
         if isinstance(t, ast.Name):
             self.store_name(t.id, v, fr)
         elif isinstance(t, ast.Attribute):
-            self.setattr(self.eval(t.value, fr), t.attr, v, t)
+            self.setattr(self.eval(t.value, fr), self.mangle(t.attr, fr), v, t)
         elif isinstance(t, ast.Subscript):
             obj = self.eval(t.value, fr)
             self.setitem(obj, self.eval_index(t.slice, fr), v, t)
@@ -848,8 +848,20 @@ class Interp:
             return self.real_call(lambda: V._CMP[op](a, b))
         return self.lib.compare(self, op, a, b, node)
 
+    @staticmethod
+    def mangle(name: str, fr: Frame) -> str:
+        """Private-name mangling of `__x` inside a class body (CPython compile-time rule)."""
+        if name.startswith('__') and not name.endswith('__'):
+            f = fr
+            while f is not None:
+                cls_name = getattr(f.fi, 'mangle_class', None) or (f.fi.owner.__name__ if f.fi.owner is not None else None)
+                if cls_name:
+                    return '_' + cls_name.lstrip('_') + name
+                f = f.parent
+        return name
+
     def ex_Attribute(self, e, fr):
-        return self.getattr(self.eval(e.value, fr), e.attr, e)
+        return self.getattr(self.eval(e.value, fr), self.mangle(e.attr, fr), e)
 
     def ex_Subscript(self, e, fr):
         obj = self.eval(e.value, fr)
